@@ -194,6 +194,18 @@ def rule_R2(ctx):
     ctx.floor("R2", "matcher call sites", m, 8)
 
 
+def rule_prereq(ctx):
+    """necessary conditions shared with other properties, evaluated here as well: a signature is only reachable when optional
+    headers are not charged (C12.R9), window forms are derived as the signatures write them (C03.R7) and every quirk is set under
+    exactly its defining condition (C03.R2 - quirk lists are compared for equality)"""
+    from ..engine import report as R
+    from . import C03, C12
+    C12.rule_R9(R.Retag(ctx, "C12."))
+    C03.rule_R7(R.Retag(ctx, "C03."))
+    C03.rule_R2(R.Retag(ctx, "C03."))
+
+
 def run(ctx):
+    rule_prereq(ctx)
     rule_R1(ctx)
     rule_R2(ctx)
